@@ -8,7 +8,28 @@ CHECKS = {}
 NOT_APPLICABLE = {}
 
 
+# families / histories added while the checks were tried against 102 seeded changes (DESIGN.md 10.5, 10.5b)
+ADDED = {
+    "C01": " Added: a third of the enumerated complexes are built with half of their sides declared as edges beforehand, shuffled and reversed.",
+    "C02": " Added: history 'extend' (the built mesh wrapped again, one vertex and one face appended behind the existing records, built again); the ENTRY set of the hard-edge flag, which is what the library's own consumers iterate over.",
+    "C03": " Added: meshes with an interior vertex numbered below border vertices (cube around its centre, full 2x2x2 Kuhn grid) and the same complexes a thousand times smaller.",
+    "C04": " Added: the two configuration switches that change a format's edge vocabulary (complete_edges_from_faces, export_edges_in_obj); loading a file that an independent writer put at a path mouette had saved to and loaded from before.",
+    "C05": " Added: a value read from one entry written to another (then the first updated in place); values equal to the default of a non-castable type.",
+    "C08": "",
+    "C09": " A watchdog (time and memory) turns a call that does not return into a rejection.",
+    "C10": " Added: traversals of the same tree object abandoned half way before the judged ones.",
+    "C12": " Added: both normalisation modes of roots() asked for in a row.",
+    "C13": " Added: the face type asked for before the block and on the input afterwards; a cell split followed by a face split in one block (open finding).",
+    "C14": " Added: nearly (not exactly) vertical cylinders; the realised angle defect of the rings.",
+    "C15": " Added: the same detector object run twice, or first on a differently folded copy of the mesh.",
+    "C16": " Added: every other cut of a case on the SAME mesh object; an icosphere stretched along z.",
+    "C17": " Added: the same mesh object embedded first with the other weights; interior edges of cotangent weight exactly zero are classed separately (open finding).",
+    "C19": " Added: nets of degree 0 in either direction, parameters outside [0,1] by 1e-9, samples' normals after stored face normals and a quarter turn.",
+}
+
+
 def check(pid, text, note, technique, design_ref):
+    text = text + ADDED.get(pid, "")
     CHECKS[pid] = {
         "property_id": pid,
         "quick_cmd": "./bin/check %s quick" % pid,
